@@ -344,6 +344,12 @@ func (fr *frame) call2(b *ssa.BasicBlock, site ssa.Instruction, c *ssa.CallCommo
 		x.sc.assert(implies(reach, x.typeFacts(rt, res, h)))
 		return res, h
 	}
+	// a small loop-free function of the repository without a contract: its body is encoded in place (more precise
+	// than a havoc, and a helper extracted from a function under contract does not break that function's proof)
+	if autoInline && target != nil && autoInlinable(target) && fr.leafLike(target) && fr.depth < 2 && target != fr.fn && target != x.top {
+		x.autoInlined[name] = true
+		return fr.inline(target, nil, args, bindings, rt, reach, h)
+	}
 	// unknown callee: havoc everything
 	if name == "" {
 		name = "dynamic call of " + c.Value.Type().String()
@@ -355,6 +361,54 @@ func (fr *frame) call2(b *ssa.BasicBlock, site ssa.Instruction, c *ssa.CallCommo
 	nh := x.havocAll(h, reach)
 	x.sc.assert(implies(reach, x.typeFacts(rt, res, nh)))
 	return res, nh
+}
+
+// leafLike: encoding the body in place adds no obligations and no ghost events - it calls no function under contract
+// (whose preconditions would become obligations here) and nothing a counter of the top contract watches.
+func (fr *frame) leafLike(f *ssa.Function) bool {
+	for _, b := range f.Blocks {
+		for _, in := range b.Instrs {
+			switch in := in.(type) {
+			case *ssa.MakeClosure, *ssa.Send:
+				return false
+			case ssa.CallInstruction:
+				c := in.Common()
+				n := calleeName(c)
+				if _, ok := fr.x.eng.contracts[n]; ok {
+					return false
+				}
+				if len(fr.countMatches(c, n)) > 0 {
+					return false
+				}
+			}
+		}
+	}
+	return true
+}
+
+var autoInline = os.Getenv("GOWP_AUTOINLINE") != "0"
+
+// autoInlinable: a function of the repository with a body, without loops, of moderate size.
+func autoInlinable(f *ssa.Function) bool {
+	if f.Blocks == nil || f.Pkg == nil || !strings.HasPrefix(f.Pkg.Pkg.Path(), "github.com/bloxapp/ssv/") || f.Recover != nil {
+		return false
+	}
+	n := 0
+	for _, b := range f.Blocks {
+		n += len(b.Instrs)
+		for _, s := range b.Succs {
+			if s.Index <= b.Index && s.Dominates(b) {
+				return false // back edge: a loop
+			}
+		}
+		for _, in := range b.Instrs {
+			switch in.(type) {
+			case *ssa.Go, *ssa.Defer, *ssa.Select, *ssa.Panic:
+				return false
+			}
+		}
+	}
+	return n <= 60
 }
 
 func shortCallee(name string) string {
